@@ -8,7 +8,9 @@ Open Scope Z_scope.
 
 (* ---- vocabulary of the statement --------------------------------------------------------------------------- *)
 (* a character that may occur inside an ordinary token: not a separator, not '#', not a parenthesis *)
-Definition plainc (c : ascii) : bool := negb (sepc c) && negb (is_c c c_hash) && negb (is_paren c).
+(* an ordinary token character: not a separator, not '#', not a parenthesis, not a quote (quotes delimit character
+   literals, which the lexer replaces by their value before anything else) *)
+Definition plainc (c : ascii) : bool := negb (is_c c c_quote) && (negb (sepc c) && negb (is_c c c_hash) && negb (is_paren c)).
 Definition plain_tok (t : list ascii) : Prop := t <> [] /\ Forall (fun c => plainc c = true) t.
 Definition paren_tok (t : list ascii) : Prop := t = [c_lpar] \/ t = [c_rpar].
 Definition tok_ok (t : list ascii) : Prop := plain_tok t \/ paren_tok t.
@@ -54,9 +56,12 @@ Lemma sep_not_hash c : sepc c = true -> is_c c c_hash = false.
 Proof. intros H. destruct (is_c c c_hash) eqn:E; [apply is_c_eq in E; subst; discriminate H | reflexivity]. Qed.
 Lemma plainc_inv c : plainc c = true -> sepc c = false /\ is_c c c_hash = false /\ is_paren c = false.
 Proof.
-  unfold plainc. intros H. apply andb_true_iff in H. destruct H as [H H3]. apply andb_true_iff in H. destruct H as [H1 H2].
+  unfold plainc. intros H. apply andb_true_iff in H. destruct H as [_ H].
+  apply andb_true_iff in H. destruct H as [H H3]. apply andb_true_iff in H. destruct H as [H1 H2].
   apply negb_true_iff in H1, H2, H3. auto.
 Qed.
+Lemma plainc_nq c : plainc c = true -> is_c c c_quote = false.
+Proof. unfold plainc. intros H. apply andb_true_iff in H. destruct H as [H _]. apply negb_true_iff in H. exact H. Qed.
 Lemma paren_inv t : paren_tok t -> exists p, t = [p] /\ is_paren p = true /\ sepc p = false /\ is_c p c_hash = false /\ is_ws p = false.
 Proof. intros [-> | ->]; eexists; repeat split; reflexivity. Qed.
 Lemma plain_not_paren t : plain_tok t -> paren_tok t -> False.
@@ -143,10 +148,27 @@ Proof.
   rewrite E at 2. rewrite (T_gap pre) by (apply ws_gap; assumption).
   rewrite (T_trail _ post) by (apply ws_gap; assumption). reflexivity.
 Qed.
-Lemma lex_normal_T l : lex_normal l = tokens_of (pad_parens (strip_comment l)).
+Lemma lex_normal_T l : lex_normal l = tokens_of (pad_parens (strip_comment (protect_chars l))).
 Proof.
-  unfold lex_normal. rewrite <- (T_strip (pad_parens (strip_comment l))).
-  destruct (strip_l (pad_parens (strip_comment l))); reflexivity.
+  unfold lex_normal. rewrite <- (T_strip (pad_parens (strip_comment (protect_chars l)))).
+  destruct (strip_l (pad_parens (strip_comment (protect_chars l)))); reflexivity.
+Qed.
+
+(* ---- character-literal protection leaves quote-free text alone ---------------------------------------------- *)
+Definition nq (c : ascii) : Prop := is_c c c_quote = false.
+Lemma protect_prefix x rest : Forall nq x -> protect_chars (x ++ rest) = x ++ protect_chars rest.
+Proof.
+  induction 1 as [|c x Hc _ IH]; simpl. reflexivity.
+  unfold nq in Hc. rewrite Hc. rewrite IH. reflexivity.
+Qed.
+Lemma protect_none x : Forall nq x -> protect_chars x = x.
+Proof. intro H. rewrite <- (app_nil_r x) at 1. rewrite (protect_prefix x [] H). simpl. apply app_nil_r. Qed.
+Lemma protect_hash cm : protect_chars (c_hash :: cm) = c_hash :: protect_chars cm.
+Proof. reflexivity. Qed.
+Lemma sep_nq c : sepc c = true -> nq c.
+Proof.
+  unfold nq, sepc, is_ws, is_c. intro H. destruct (Ascii.eqb c c_quote) eqn:E; auto.
+  apply Ascii.eqb_eq in E. subst c. vm_compute in H. discriminate.
 Qed.
 
 (* ---- the padded body --------------------------------------------------------------------------------------- *)
@@ -195,6 +217,18 @@ Proof.
     + destruct (paren_inv t Hp) as [p [-> [_ [_ [Hh _]]]]]. constructor; [assumption | constructor].
   - revert Hgap. apply Forall_impl. apply sep_not_hash.
 Qed.
+Lemma body_nq tgs : Forall (fun tg => tok_ok (fst tg)) tgs -> gaps_ok tgs -> Forall nq (body tgs).
+Proof.
+  induction tgs as [|[t g] r IH]; intros Hts Hg; [constructor|].
+  inversion Hts as [|? ? Ht Hr]; subst. simpl in Ht. destruct Hg as [Hgap [_ Hgr]]. simpl.
+  apply Forall_app. split; [|apply Forall_app; split; [|apply IH; assumption]].
+  - destruct Ht as [[_ H] | Hp].
+    + revert H. apply Forall_impl. intros c Hc. apply plainc_nq. exact Hc.
+    + destruct Hp as [-> | ->]; repeat constructor.
+  - revert Hgap. apply Forall_impl. apply sep_nq.
+Qed.
+Lemma ws_nq l : Forall (fun c => is_ws c = true) l -> Forall nq l.
+Proof. apply Forall_impl. intros c H. apply sep_nq, ws_sep, H. Qed.
 Lemma ws_no_hash l : Forall (fun c => is_ws c = true) l -> Forall (fun c => is_c c c_hash = false) l.
 Proof. apply Forall_impl. intros c H. apply sep_not_hash, ws_sep, H. Qed.
 Lemma ws_no_paren l : Forall (fun c => is_ws c = true) l -> Forall (fun c => is_paren c = false) l.
@@ -213,11 +247,13 @@ Proof.
     f_equal. apply IH. congruence. }
   assert (Hnh : Forall (fun c => is_c c c_hash = false) (indent sty ++ body tgs)).
   { apply Forall_app. split; [apply ws_no_hash; assumption | apply body_no_hash; assumption]. }
-  assert (Hstrip : strip_comment (indent sty ++ body tgs ++ match comment sty with Some c => c_hash :: c | None => [] end)
+  assert (Hq : Forall nq (indent sty ++ body tgs)).
+  { apply Forall_app. split; [apply ws_nq; assumption | apply body_nq; assumption]. }
+  assert (Hstrip : strip_comment (protect_chars (indent sty ++ body tgs ++ match comment sty with Some c => c_hash :: c | None => [] end))
                    = indent sty ++ body tgs).
-  { rewrite app_assoc. destruct (comment sty) as [cm|].
-    - apply strip_comment_cut. assumption.
-    - rewrite app_nil_r. apply strip_comment_none. assumption. }
+  { rewrite app_assoc. rewrite (protect_prefix _ _ Hq). destruct (comment sty) as [cm|].
+    - rewrite protect_hash. apply strip_comment_cut. assumption.
+    - simpl. rewrite app_nil_r. apply strip_comment_none. assumption. }
   rewrite Hstrip, pad_app, (pad_none (indent sty)) by (apply ws_no_paren; assumption).
   rewrite T_gap by (apply ws_gap; assumption).
   rewrite body_tokens by assumption. exact Hmap.
@@ -255,7 +291,7 @@ Proof.
   - simpl. destruct r as [|[t2 g2] r'].
     + simpl. destruct Htail as [-> | [cm ->]]; [exact I | reflexivity].
     + destruct Hadj as [Hc | Hc]; [congruence|]. destruct Hc as [-> | ->]; reflexivity.
-  - simpl. inversion Hg as [|? ? Hs _]; subst. unfold plainc. rewrite Hs. reflexivity.
+  - simpl. inversion Hg as [|? ? Hs _]; subst. unfold plainc. rewrite Hs. simpl. apply andb_false_r.
 Qed.
 
 Lemma kw_none (k : list ascii) sty ts :
